@@ -989,6 +989,113 @@ func vh03Rename2(t *testing.T, o *vhOut, id int, r *rand.Rand, version int, raci
 		"msize": pr.c.messageSize, "calls": calls, "err": vhclClassify(err), "fail": false, "ret": []vh03Val{}, "ans": []vh03Val{}})
 }
 
+// vh03RenSeq: sequences through SEVERAL handles of the same directories.  Two handles each for the directories d1
+// and d2, one handle f for an entry of d1; then renames of that entry — onto its own name through the other
+// handle of its directory (a no-op: the entry is identified by path node and name, not by the handle that names
+// the directory), within the directory, into the other directory — each followed by a SetAttr through f, which
+// must reach f's File.  One observation: per step the backend calls and the error.
+func vh03RenSeq(t *testing.T, o *vhOut, id int, r *rand.Rand, version int, nsteps int) {
+	w := &vh03World{ar: rand.New(rand.NewSource(r.Int63()))}
+	root := w.newFile(ModeDirectory|0o755, "", nil)
+	pr, err := vhclPair(vhclAttacher{func() (File, error) { return root, nil }}, 8192, version)
+	if err != nil {
+		t.Fatalf("C03 renseq pair: %v", err)
+	}
+	defer pr.Close()
+	croot, err := pr.c.Attach("")
+	if err != nil {
+		t.Fatalf("C03 renseq attach: %v", err)
+	}
+	vh03Hold(croot, pr)
+	walk := func(from File, name string) *clientFile {
+		_, f, err := from.Walk([]string{name})
+		if err != nil {
+			t.Fatalf("C03 renseq walk %q: %v", name, err)
+		}
+		vh03Hold(f)
+		return f.(*clientFile)
+	}
+	// backend handles and model reference indices coincide: 0 root, 1 d1a, 2 d1b, 3 d2a, 4 d2b, 5 f
+	h := []*clientFile{croot.(*clientFile), walk(croot, "d1"), walk(croot, "d1"), walk(croot, "d2"), walk(croot, "d2")}
+	fname := "x" + vh03Name(r)
+	f := walk(h[1], fname)
+	h = append(h, f)
+	fids := []uint64{}
+	for _, x := range h {
+		fids = append(fids, uint64(x.fid))
+	}
+	w.mu.Lock()
+	w.record = true
+	w.mu.Unlock()
+	take := func() []map[string]interface{} {
+		w.mu.Lock()
+		log := append([]vh03Call(nil), w.log...)
+		w.log = nil
+		w.mu.Unlock()
+		calls := []map[string]interface{}{}
+		for _, c := range log {
+			var args []vh03Val
+			for _, a := range c.Args {
+				if hh, ok := a["h"]; ok && hh.(int) >= 0 && hh.(int) < len(fids) {
+					a = vh03Val{"f": fids[hh.(int)]}
+				}
+				args = append(args, a)
+			}
+			on := map[string]interface{}{"walked": c.On}
+			if c.On >= 0 && c.On < len(fids) {
+				on = map[string]interface{}{"fid": fids[c.On]}
+			}
+			calls = append(calls, map[string]interface{}{"m": c.M, "on": on, "args": args})
+		}
+		return calls
+	}
+	steps := []map[string]interface{}{}
+	curDir, curName := 0, fname // curDir 0: d1 (handles 1,2), 1: d2 (handles 3,4)
+	for k := 0; k < nsteps; k++ {
+		a := 1 + 2*curDir + r.Intn(2) // a handle of the entry's directory
+		b := 1 + 2*curDir + (a-1-2*curDir+1)%2
+		oth := 1 + 2*(1-curDir) + r.Intn(2)
+		newName := "y" + vh03Name(r)
+		var st map[string]interface{}
+		var cerr error
+		switch r.Intn(6) {
+		case 0: // onto its own name, the directory named through two different handles
+			cerr = h[a].RenameAt(curName, h[b], curName)
+			st = map[string]interface{}{"op": "renameat", "d": a, "old": vhBytes([]byte(curName)), "d2": b, "new": vhBytes([]byte(curName))}
+		case 1: // the same through File.Rename, with either handle of the directory
+			cerr = f.Rename(h[b], curName)
+			st = map[string]interface{}{"op": "rename", "f": 5, "d2": b, "new": vhBytes([]byte(curName))}
+		case 2: // one handle
+			cerr = h[a].RenameAt(curName, h[a], curName)
+			st = map[string]interface{}{"op": "renameat", "d": a, "old": vhBytes([]byte(curName)), "d2": a, "new": vhBytes([]byte(curName))}
+		case 3: // a new name in the same directory, through two handles
+			cerr = h[a].RenameAt(curName, h[b], newName)
+			st = map[string]interface{}{"op": "renameat", "d": a, "old": vhBytes([]byte(curName)), "d2": b, "new": vhBytes([]byte(newName))}
+			curName = newName
+		case 4: // into the other directory under a new name
+			cerr = f.Rename(h[oth], newName)
+			st = map[string]interface{}{"op": "rename", "f": 5, "d2": oth, "new": vhBytes([]byte(newName))}
+			curName, curDir = newName, 1-curDir
+		case 5: // into the other directory under the SAME name: another entry, a real rename
+			cerr = h[a].RenameAt(curName, h[oth], curName)
+			st = map[string]interface{}{"op": "renameat", "d": a, "old": vhBytes([]byte(curName)), "d2": oth, "new": vhBytes([]byte(curName))}
+			curDir = 1 - curDir
+		}
+		st["calls"], st["err"] = take(), vhclClassify(cerr)
+		steps = append(steps, st)
+		m := SetAttrMask{Permissions: r.Intn(2) == 0, UID: r.Intn(2) == 0, GID: r.Intn(2) == 0, Size: r.Intn(2) == 0, ATime: r.Intn(2) == 0, MTime: r.Intn(2) == 0, CTime: r.Intn(2) == 0,
+			ATimeNotSystemTime: r.Intn(2) == 0, MTimeNotSystemTime: r.Intn(2) == 0}
+		at := SetAttr{Permissions: FileMode(vh03U32(r)) & 0o7777, UID: UID(vh03U32(r)), GID: GID(vh03U32(r)), Size: vh03U64(r), ATimeSeconds: vh03U64(r), ATimeNanoSeconds: vh03U64(r), MTimeSeconds: vh03U64(r), MTimeNanoSeconds: vh03U64(r)}
+		cerr = f.SetAttr(m, at)
+		steps = append(steps, map[string]interface{}{"op": "probe", "f": 5, "m": "SetAttr", "args": []vh03Val{vh03SetMask(m), vh03SetAttr(at)},
+			"calls": take(), "err": vhclClassify(cerr)})
+	}
+	w.mu.Lock()
+	w.record = false
+	w.mu.Unlock()
+	o.Emit(map[string]interface{}{"kind": "renseq", "id": id, "version": version, "fids": fids, "fname": vhBytes([]byte(fname)), "steps": steps})
+}
+
 // vh03Keep holds every client handle made by the harness until the test ends: clientFile has a finalizer
 // that clunks it, and a finalizer running inside a recording window would add backend calls (Close) the
 // operation under test never made.  The collector is also switched off for the duration of the test.
@@ -1045,6 +1152,12 @@ func TestVerifC03(t *testing.T) {
 		id++
 		for k := 0; k < 3; k++ {
 			vh03Rename2(t, o, id, r, v, true)
+			id++
+		}
+	}
+	for v := 0; v <= int(highestSupportedVersion); v++ {
+		for k := 0; k < 3*reps; k++ {
+			vh03RenSeq(t, o, id, r, v, 5)
 			id++
 		}
 	}
